@@ -23,10 +23,15 @@ DECIDED = [
     "start-up points that still wait to be yielded are never abandoned: Done is not answered, and the final clipped step is not taken, while yield_memory == O with a full history "
     "(hist invariant: their validating multistep step fits before the end)",
     "BDFSolver::step (BDF2/BDF6): the same clauses as for Adams (ordered, in the interval, gap-bounded per call; final step on the end; no abandoned start-up points; rewind by order * dt after a rejected start-up)",
+    "Adams / BDF, all regimes of step() (start-up taken, start-up points handed out from memory, kept-aside point handed over, accepted / rejected multistep trial, single RK4 steps near the end, "
+    "final clipped step, Done): the transition summary mtrans(old -> final, res) is a postcondition of the real step(); lemma_mclock derives from it and the history invariant that the YIELD CLOCK "
+    "(the time of the last point handed out, read off the solver's fields: it lags the solver's own time while start-up points are held back) obeys the clock contract, "
+    "that every yielded point is the new clock value, strictly later than the previous one, inside the interval and within dt_max of it",
+    "lemma_mreaches_end (whole histories of step() calls on Adams / BDF, by induction): a solve that starts before the end, never fails and is answered Done has yielded at least one point, "
+    "the LAST yielded point is exactly the end time, and every yielded point lies within dt_max after the previous one",
 ]
 NOT_DECIDED = [
-    "Adams / BDF: the whole-history statement 'the last yielded point is at the end time' (the yielded start-up points come from memory, so the clock lemma does not apply as it stands); "
-    "decided per call only: final step lands on the end, no pending points at Done",
+    "Adams only: a multistep trial whose error estimate is exactly zero (division by it in the step-size update; the invariant is not re-established there and lemma_mclock does not apply to that call)",
     "termination (a solver may answer Redo forever) and finiteness of the states (exact reals have no NaN/inf)",
     "IVPIterator::next turning step() results into items is decided in C06 (iterator unit)",
 ]
